@@ -179,6 +179,9 @@ func sequential(c *evid.Ctx, depth int) {
 	for _, n := range []int{0, 1, 3} {
 		alphabet = append(alphabet, op{"direct", 60, 0, n})
 	}
+	// a record that cannot be serialised (a LogSinkPack built as a literal: no tag map): Append skips
+	// it - it is not accepted, so it must leave no trace in any pack's count or payload
+	alphabet = append(alphabet, op{"poison", 0, 0, 0})
 	var evals int64
 	runOne := func(st setting, retain bool, h []int) *recorder {
 		evals++
@@ -193,6 +196,21 @@ func sequential(c *evid.Ctx, depth int) {
 		verdict := ""
 		for _, oi := range h {
 			o := alphabet[oi]
+			if o.kind == "poison" {
+				func() {
+					defer func() {
+						if r := recover(); r != nil {
+							verdict = fmt.Sprintf("panic: Append of a record that cannot be serialised panicked: %v", r)
+						}
+					}()
+					z.Append(&pack.LogSinkPack{})
+				}()
+				desc = append(desc, "Append(unserialisable record)")
+				if verdict != "" {
+					break
+				}
+				continue
+			}
 			if o.kind == "append" {
 				t += o.dt
 				r := mkRecord(id, o.size, t)
